@@ -2,31 +2,303 @@ import MemVerif.Model.ArenaRun
 /-! Proofs behind `MemVerif.Props.C05` (statements there). -/
 namespace MemVerif.Model
 
-theorem lifo_balanced (cfg : Cfg) (e : EnvS) (src : Src) (hsrc : src.isUpstream = true) (cached : Bool)
-    (ops : List AOp) :
-    let a0 : Arena := { src := src, isCached := cached }
-    let r := a0.runOps cfg e 0 ops
-    ledger [] (r.2.2 ++ (r.1.destroy cfg).2.1) = some [] := by
-  sorry
+/-! ### ledger -/
+
+theorem ledger_append (st : List Blk) (e1 e2 : List UpEv) :
+    ledger st (e1 ++ e2) = (ledger st e1).bind (fun st' => ledger st' e2) := by
+  induction e1 generalizing st with
+  | nil => simp [ledger]
+  | cons ev evs ih =>
+    cases ev with
+    | alloc s al r =>
+      cases r with
+      | none => simp only [List.cons_append, ledger]; exact ih st
+      | some a => simp only [List.cons_append, ledger]; exact ih _
+    | dealloc a s al =>
+      cases st with
+      | nil => simp [ledger]
+      | cons b st =>
+        simp only [List.cons_append, ledger]
+        split
+        · exact ih st
+        · simp
+
+theorem ledger_append_of_eq {st st' : List Blk} {e1 : List UpEv} (h : ledger st e1 = some st')
+    (e2 : List UpEv) : ledger st (e1 ++ e2) = ledger st' e2 := by
+  rw [ledger_append, h]; rfl
+
+/-! ### sources -/
+
+theorem Src.deallocateBlock_upstream (cfg : Cfg) (s : Src) (b : Blk) (hs : s.isUpstream = true) :
+    (s.deallocateBlock cfg b).1.isUpstream = true ∧
+      (s.deallocateBlock cfg b).2.1 = [.dealloc b.base b.size maxAlign] := by
+  cases s with
+  | growing n d bs => simp [Src.deallocateBlock, Src.isUpstream]
+  | fixed bs => simp [Src.deallocateBlock, Src.isUpstream]
+  | static_ c e bs => simp [Src.isUpstream] at hs
+
+theorem releaseAll_upstream (cfg : Cfg) (s : Src) (bs rest : List Blk) (hs : s.isUpstream = true) :
+    (releaseAll cfg s bs).1.isUpstream = true ∧
+      ledger (bs ++ rest) (releaseAll cfg s bs).2.1 = some rest := by
+  induction bs generalizing s with
+  | nil => simp [releaseAll, ledger, hs]
+  | cons b bs ih =>
+    obtain ⟨h1, h2⟩ := Src.deallocateBlock_upstream cfg s b hs
+    obtain ⟨h3, h4⟩ := ih (s.deallocateBlock cfg b).1 h1
+    simp only [releaseAll]
+    refine ⟨h3, ?_⟩
+    rw [h2]
+    simp only [List.cons_append, List.nil_append, ledger]
+    simp [h4]
+
+/-- what the source does on an upstream allocation request -/
+theorem Src.allocateBlock_fail (s : Src) (env : List (Option Nat)) (s' : Src) (ex : Exn) (ev : List UpEv)
+    (env' : List (Option Nat)) (h : s.allocateBlock env = .fail s' ex ev env') :
+    s' = s ∧ newBlocks ev = [] ∧ ∀ st, ledger st ev = some st := by
+  cases s with
+  | growing n d bs =>
+    match env, h with
+    | [], h => simp [Src.allocateBlock] at h
+    | none :: _, h =>
+      simp only [Src.allocateBlock, SrcRes.fail.injEq] at h
+      obtain ⟨h1, _, h3, _⟩ := h
+      subst h1 h3
+      exact ⟨rfl, rfl, fun _ => rfl⟩
+    | some _ :: _, h => simp [Src.allocateBlock] at h
+  | fixed bs =>
+    by_cases hb : bs = 0
+    · simp only [Src.allocateBlock, hb, ne_eq, not_true_eq_false, if_false, SrcRes.fail.injEq] at h
+      obtain ⟨h1, _, h3, _⟩ := h
+      subst h1 h3
+      exact ⟨by rw [hb], rfl, fun _ => rfl⟩
+    · match env, h with
+      | [], h => simp [Src.allocateBlock, hb] at h
+      | none :: _, h =>
+        simp only [Src.allocateBlock, ne_eq, hb, not_false_eq_true, if_true, SrcRes.fail.injEq] at h
+        obtain ⟨h1, _, h3, _⟩ := h
+        subst h1 h3
+        exact ⟨rfl, rfl, fun _ => rfl⟩
+      | some _ :: _, h => simp [Src.allocateBlock, hb] at h
+  | static_ c e bs =>
+    simp only [Src.allocateBlock] at h
+    split at h
+    · simp only [SrcRes.fail.injEq] at h
+      obtain ⟨h1, _, h3, _⟩ := h
+      subst h1 h3
+      exact ⟨rfl, rfl, fun _ => rfl⟩
+    · simp at h
+
+theorem Src.allocateBlock_ok (s : Src) (env : List (Option Nat)) (s' : Src) (b : Blk) (ev : List UpEv)
+    (env' : List (Option Nat)) (hs : s.isUpstream = true) (h : s.allocateBlock env = .ok s' b ev env') :
+    s'.isUpstream = true ∧ ∀ st, ledger st ev = some (b :: st) := by
+  cases s with
+  | growing n d bs =>
+    match env, h with
+    | [], h => simp [Src.allocateBlock] at h
+    | none :: _, h => simp [Src.allocateBlock] at h
+    | some _ :: _, h =>
+      simp only [Src.allocateBlock, SrcRes.ok.injEq] at h
+      obtain ⟨h1, h2, h3, _⟩ := h
+      subst h1 h2 h3
+      exact ⟨rfl, fun _ => rfl⟩
+  | fixed bs =>
+    by_cases hb : bs = 0
+    · simp [Src.allocateBlock, hb] at h
+    · match env, h with
+      | [], h => simp [Src.allocateBlock, hb] at h
+      | none :: _, h => simp [Src.allocateBlock, hb] at h
+      | some _ :: _, h =>
+        simp only [Src.allocateBlock, ne_eq, hb, not_false_eq_true, if_true, SrcRes.ok.injEq] at h
+        obtain ⟨h1, h2, h3, _⟩ := h
+        subst h1 h2 h3
+        exact ⟨rfl, fun _ => rfl⟩
+  | static_ c e bs => simp [Src.isUpstream] at hs
+
+/-! ### arena invariant -/
+
+/-- upstream source; an uncached arena never has anything in its cache -/
+def Arena.UpInv (a : Arena) : Prop :=
+  a.src.isUpstream = true ∧ (a.isCached = false → a.cached = [])
+
+/-- a step from `a` to `a'` emitting `ev` keeps the invariant and the ledger in sync -/
+def Arena.Sync (a a' : Arena) (ev : List UpEv) : Prop :=
+  a'.UpInv ∧ ledger (a.cached.reverse ++ a.used) ev = some (a'.cached.reverse ++ a'.used)
+
+theorem Arena.Sync.refl (a : Arena) (h : a.UpInv) : a.Sync a [] := ⟨h, rfl⟩
+
+/-- the source is only asked when the cache is empty -/
+theorem Arena.allocateBlock_src (a : Arena) (h : a.UpInv)
+    (hne : ∀ c cs, a.isCached = true → a.cached = c :: cs → False) : a.cached = [] := by
+  cases hic : a.isCached with
+  | false => exact h.2 hic
+  | true =>
+    cases hcc : a.cached with
+    | nil => rfl
+    | cons c cs => exact absurd hcc (hne c cs hic)
+
+theorem Arena.allocateBlock_ok_inv (a : Arena) (env : List (Option Nat)) (h : a.UpInv)
+    (a' : Arena) (x : Blk) (ev : List UpEv) (env' : List (Option Nat))
+    (heq : a.allocateBlock env = .ok a' x ev env') : a.Sync a' ev := by
+  obtain ⟨hs, hc⟩ := h
+  unfold Arena.allocateBlock at heq
+  split at heq
+  · rename_i c cs hic hcc
+    simp only [ArenaRes.ok.injEq] at heq
+    obtain ⟨h1, _, h3, _⟩ := heq
+    subst h1 h3
+    refine ⟨⟨hs, fun h => by simp [hic] at h⟩, ?_⟩
+    simp [hcc, ledger]
+  · rename_i hne
+    have hnil := Arena.allocateBlock_src a ⟨hs, hc⟩ hne
+    split at heq
+    · simp at heq
+    · simp at heq
+    · rename_i s b ev0 env0 hsrc
+      simp only [ArenaRes.ok.injEq] at heq
+      obtain ⟨h1, _, h3, _⟩ := heq
+      subst h1 h3
+      obtain ⟨h5, h6⟩ := Src.allocateBlock_ok a.src env s b ev0 env0 hs hsrc
+      refine ⟨⟨h5, hc⟩, ?_⟩
+      simp only [hnil, List.reverse_nil, List.nil_append]
+      exact h6 _
+
+theorem Arena.allocateBlock_fail_eq (a : Arena) (env : List (Option Nat))
+    (a' : Arena) (ex : Exn) (ev : List UpEv) (env' : List (Option Nat))
+    (heq : a.allocateBlock env = .fail a' ex ev env') :
+    a' = a ∧ newBlocks ev = [] ∧ ∀ st, ledger st ev = some st := by
+  unfold Arena.allocateBlock at heq
+  split at heq
+  · simp at heq
+  · split at heq
+    · simp at heq
+    · rename_i s e0 ev0 env0 hsrc
+      simp only [ArenaRes.fail.injEq] at heq
+      obtain ⟨h1, _, h3, _⟩ := heq
+      obtain ⟨h5, h6, h7⟩ := Src.allocateBlock_fail a.src env s e0 ev0 env0 hsrc
+      subst h1 h3 h5
+      exact ⟨rfl, h6, h7⟩
+    · simp at heq
+
+theorem Arena.shrinkToFit_inv (cfg : Cfg) (a : Arena) (h : a.UpInv) :
+    (a.shrinkToFit cfg).1.UpInv ∧ (a.shrinkToFit cfg).1.cached = [] ∧
+      (a.shrinkToFit cfg).1.used = a.used ∧
+      ledger (a.cached.reverse ++ a.used) (a.shrinkToFit cfg).2.1 = some a.used := by
+  obtain ⟨hs, _⟩ := h
+  obtain ⟨h1, h2⟩ := releaseAll_upstream cfg a.src a.cached.reverse a.used hs
+  exact ⟨⟨h1, fun _ => rfl⟩, rfl, rfl, h2⟩
+
+theorem Arena.deallocateBlock_inv (cfg : Cfg) (a : Arena) (h : a.UpInv)
+    (a' : Arena) (ev : List UpEv) (chk : Option String)
+    (heq : a.deallocateBlock cfg = some (a', ev, chk)) : a.Sync a' ev := by
+  obtain ⟨hs, hc⟩ := h
+  unfold Arena.deallocateBlock at heq
+  split at heq
+  · simp at heq
+  · rename_i b us hu
+    cases hic : a.isCached with
+    | true =>
+      simp only [hic, if_true, Option.some.injEq, Prod.mk.injEq] at heq
+      obtain ⟨h1, h2, _⟩ := heq
+      subst h1 h2
+      refine ⟨⟨hs, fun h => by simp at h⟩, ?_⟩
+      simp [hu, ledger]
+    | false =>
+      obtain ⟨h1, h2⟩ := Src.deallocateBlock_upstream cfg a.src b hs
+      have hnil := hc hic
+      simp only [hic, Bool.false_eq_true, if_false, Option.some.injEq, Prod.mk.injEq] at heq
+      obtain ⟨h3, h4, _⟩ := heq
+      subst h3 h4
+      refine ⟨⟨h1, fun _ => hnil⟩, ?_⟩
+      rw [h2]
+      simp [hnil, hu, ledger]
+
+theorem Arena.stepOp_inv (cfg : Cfg) (e : EnvS) (a : Arena) (k : Nat) (op : AOp) (h : a.UpInv) :
+    a.Sync (a.stepOp cfg e k op).1 (a.stepOp cfg e k op).2.2 := by
+  cases op with
+  | alloc =>
+    simp only [Arena.stepOp]
+    split
+    · rename_i a' x ev env' heq
+      exact Arena.allocateBlock_ok_inv a _ h a' x ev env' heq
+    · rename_i a' ex ev env' heq
+      obtain ⟨h1, _, h3⟩ := Arena.allocateBlock_fail_eq a _ a' ex ev env' heq
+      subst h1
+      exact ⟨h, h3 _⟩
+    · exact Arena.Sync.refl a h
+  | dealloc =>
+    simp only [Arena.stepOp]
+    split
+    · rename_i a' ev chk heq
+      exact Arena.deallocateBlock_inv cfg a h a' ev chk heq
+    · exact Arena.Sync.refl a h
+  | shrink =>
+    obtain ⟨h1, h2, h3, h4⟩ := Arena.shrinkToFit_inv cfg a h
+    simp only [Arena.stepOp]
+    refine ⟨h1, ?_⟩
+    rw [h4, h2, h3]; rfl
+
+theorem Arena.runOps_inv (cfg : Cfg) (e : EnvS) (a : Arena) (k : Nat) (ops : List AOp) (h : a.UpInv) :
+    (a.runOps cfg e k ops).1.UpInv ∧
+      ledger (a.cached.reverse ++ a.used) (a.runOps cfg e k ops).2.2 =
+        some ((a.runOps cfg e k ops).1.cached.reverse ++ (a.runOps cfg e k ops).1.used) := by
+  induction ops generalizing a k with
+  | nil => exact ⟨h, by simp [Arena.runOps, ledger]⟩
+  | cons op ops ih =>
+    obtain ⟨h1, h2⟩ := Arena.stepOp_inv cfg e a k op h
+    obtain ⟨h3, h4⟩ := ih (a.stepOp cfg e k op).1 (a.stepOp cfg e k op).2.1 h1
+    simp only [Arena.runOps]
+    refine ⟨h3, ?_⟩
+    rw [ledger_append_of_eq h2]
+    exact h4
+
+theorem Arena.destroy_ledger (cfg : Cfg) (a : Arena) (h : a.UpInv) :
+    ledger (a.cached.reverse ++ a.used) (a.destroy cfg).2.1 = some [] := by
+  obtain ⟨h1, _, h3, h4⟩ := Arena.shrinkToFit_inv cfg a h
+  obtain ⟨_, h6⟩ := releaseAll_upstream cfg (a.shrinkToFit cfg).1.src (a.shrinkToFit cfg).1.used [] h1.1
+  simp only [Arena.destroy]
+  rw [ledger_append_of_eq h4]
+  rw [h3, List.append_nil] at h6
+  rw [h3]
+  exact h6
+
+/-! ### the C05 statements -/
 
 theorem acquisition_order (cfg : Cfg) (e : EnvS) (src : Src) (hsrc : src.isUpstream = true) (cached : Bool)
     (ops : List AOp) :
     let a0 : Arena := { src := src, isCached := cached }
     let r := a0.runOps cfg e 0 ops
     ledger [] r.2.2 = some (r.1.cached.reverse ++ r.1.used) := by
-  sorry
+  intro a0 r
+  have h0 : a0.UpInv := ⟨hsrc, fun _ => rfl⟩
+  exact (Arena.runOps_inv cfg e a0 0 ops h0).2
+
+theorem lifo_balanced (cfg : Cfg) (e : EnvS) (src : Src) (hsrc : src.isUpstream = true) (cached : Bool)
+    (ops : List AOp) :
+    let a0 : Arena := { src := src, isCached := cached }
+    let r := a0.runOps cfg e 0 ops
+    ledger [] (r.2.2 ++ (r.1.destroy cfg).2.1) = some [] := by
+  intro a0 r
+  have h0 : a0.UpInv := ⟨hsrc, fun _ => rfl⟩
+  obtain ⟨h1, h2⟩ := Arena.runOps_inv cfg e a0 0 ops h0
+  have h2' : ledger [] r.2.2 = some (r.1.cached.reverse ++ r.1.used) := h2
+  rw [ledger_append_of_eq h2']
+  exact Arena.destroy_ledger cfg r.1 h1
 
 theorem cache_first (a : Arena) (c : Blk) (cs : List Blk) (env : List (Option Nat))
     (hc : a.isCached = true) (hcs : a.cached = c :: cs) :
     ∃ a', a.allocateBlock env = .ok a' c.usable [] env ∧ a'.used = c :: a.used ∧ a'.cached = cs ∧ a'.src = a.src := by
-  sorry
+  refine ⟨{ a with used := c :: a.used, cached := cs }, ?_, rfl, rfl, rfl⟩
+  unfold Arena.allocateBlock
+  rw [hc, hcs]
 
 theorem failure_keeps_blocks (a : Arena) (env : List (Option Nat)) (a' : Arena) (ex : Exn) (ev : List UpEv)
     (env' : List (Option Nat)) (h : a.allocateBlock env = .fail a' ex ev env') :
     a'.used = a.used ∧ a'.cached = a.cached ∧ a'.src = a.src ∧ newBlocks ev = [] := by
-  sorry
+  obtain ⟨h1, h2, _⟩ := Arena.allocateBlock_fail_eq a env a' ex ev env' h
+  subst h1
+  exact ⟨rfl, rfl, rfl, h2⟩
 
 theorem moved_from_inert (cfg : Cfg) (a : Arena) : (a.movedFrom.destroy cfg).2.1 = [] := by
-  sorry
+  simp [Arena.movedFrom, Arena.destroy, Arena.shrinkToFit, releaseAll]
 
 end MemVerif.Model
